@@ -488,7 +488,7 @@ def moment_keys(moment):
 # ---------------------------------------------------------------------------------------------------
 # stage 1: density matrix simulator
 
-CONFIGS_DM = [(dt, split, ign) for ign in (False, True) for dt in ("c128", "c64") for split in (False, True)]
+CONFIGS_DM = [(dt, split, False) for dt in ("c128", "c64") for split in (False, True)] + [(dt, None, True) for dt in ("c128", "c64")]
 
 
 def prep_ops(n, seed):
